@@ -914,7 +914,7 @@ def extract(repo, u, R=None, src_cache=None, siblings=None):
             if not it:
                 continue
             m = re.match(r'^(\w+)\s*([({])(.*)[)}]$', it, re.S)
-            if not m or not m.group(1).startswith('m_'):
+            if not m or not (m.group(1).startswith('m_') or m.group(1) in u.extra_members):
                 if m and m.group(1) in u.base_init_ok:
                     R.hit('ctor_base_init_dropped')
                     continue
